@@ -851,6 +851,20 @@ func genCase(r *core.RNG, small bool) *caseSpec {
 			case "host-change":
 				o.kind = "other-host"
 				o.host = r.PickStr("other.example", c.Host+".evil.example", "example.net:8080", "192.0.2.8")
+				if r.Chance(1, 3) {
+					// the same name or address with another port, or with one more character: still another origin
+					base := c.Host
+					if i := strings.LastIndex(base, ":"); i > 0 && !strings.HasSuffix(base, "]") {
+						base = base[:i]
+					}
+					o.host = base + r.PickStr(":8000", ":8080", ":8008", ":88", ":808", ":81", ":443")
+					if o.host == c.Host || wantAddrOf(o.host) == wantAddrOf(c.Host) {
+						o.host = base + ":8088"
+					}
+					if !strings.HasPrefix(base, "[") && r.Chance(1, 3) {
+						o.host = base + r.PickStr("0", "8", "00") // 192.0.2.7 -> 192.0.2.70, example.com -> example.com0
+					}
+				}
 			case "later-connect":
 				o.kind = "connect"
 			case "client-close-ind":
